@@ -24,13 +24,11 @@ DayOfJan1(y) == 365 * (y - 1970) + LeapsBefore(y) - LeapsBefore(1970)
 RECURSIVE DaysBeforeMonth(_, _)
 DaysBeforeMonth(y, m) == IF m = 1 THEN 0 ELSE DaysBeforeMonth(y, m - 1) + DaysInMonth(y, m - 1)
 
-(* broken-down time of the instant t (seconds since 1970-01-01T00:00:00Z)  *)
-(* on a clock that is off seconds ahead of UTC                              *)
-Fields(t, off) ==
-    LET lt == t + off
-        days == lt \div 86400
-        sod == lt % 86400
-        y0 == 1970 + (days \div 365)
+(* broken-down time of second sod (0..86399) of day number days (days since 1970-01-01, any sign) on  *)
+(* the clock itself.  400 Gregorian years are exactly 146097 days, so the year is found near            *)
+(* 1970 + 400 * (days div 146097) + (days mod 146097) div 365 for every day number TLC can hold.        *)
+FieldsDS(days, sod) ==
+    LET y0 == 1970 + 400 * (days \div 146097) + ((days % 146097) \div 365)
         y == CHOOSE c \in (y0 - 2)..(y0 + 2) : DayOfJan1(c) <= days /\ days < DayOfJan1(c + 1)
         yd == days - DayOfJan1(y)                       \* 0-based day of the year
         m == CHOOSE c \in 1..12 : DaysBeforeMonth(y, c) <= yd /\ yd < DaysBeforeMonth(y, c) + DaysInMonth(y, c)
@@ -38,6 +36,12 @@ Fields(t, off) ==
         hour |-> sod \div 3600, min |-> (sod % 3600) \div 60, sec |-> sod % 60,
         wday |-> ((days + 4) % 7) + 1,                  \* 1 = Sunday; 1970-01-01 was a Thursday
         yday |-> yd + 1, isdst |-> FALSE]
+
+(* broken-down time of the instant t (seconds since 1970-01-01T00:00:00Z) on a clock off seconds ahead of UTC *)
+Fields(t, off) == FieldsDS((t + off) \div 86400, (t + off) % 86400)
+
+(* the same for instants beyond 32 bits, given as day number and second of the day (UTC) *)
+FieldsW(days, sod, off) == FieldsDS(days + ((sod + off) \div 86400), (sod + off) % 86400)
 
 ValidFields(f) ==
     /\ f.month \in 1..12 /\ f.day \in 1..DaysInMonth(f.year, f.month)
@@ -48,6 +52,12 @@ ValidFields(f) ==
 SecondsOf(f, off) ==
     (DayOfJan1(f.year) + DaysBeforeMonth(f.year, f.month) + (f.day - 1)) * 86400
     + f.hour * 3600 + f.min * 60 + f.sec - off
+
+(* os.time beyond 32 bits: <<day number, second of the day>> (UTC) of the instant whose broken-down time is f *)
+SecondsOfW(f, off) ==
+    LET d == DayOfJan1(f.year) + DaysBeforeMonth(f.year, f.month) + (f.day - 1)
+        x == f.hour * 3600 + f.min * 60 + f.sec - off
+    IN <<d + (x \div 86400), x % 86400>>
 
 (******************************* strftime **********************************)
 WdayAbbr == <<"Sun", "Mon", "Tue", "Wed", "Thu", "Fri", "Sat">>
